@@ -201,4 +201,7 @@ let handle f = match f with
     let toks = glue false (print_moved mc dot nm e) in
     let back = match parse (m_tgt mc dot) nm env toks with Some (e', _) -> dump_s e' | None -> "P" in
     Printf.sprintf "%s | %s" (String.concat " " (List.map token_atom toks)) back
+  | "K" :: asheet :: ar :: ac :: aw :: ah :: s :: r :: c :: [] ->
+    let a = { ma_sheet = zi asheet; ma_row = zi ar; ma_col = zi ac; ma_width = zi aw; ma_height = zi ah } in
+    bs (external_rewritten a (zi s) (zi r) (zi c))
   | _ -> "badcase"
